@@ -1,35 +1,3 @@
-use std::path::Path;
-
-/// Source-level inclusion of the repo's Paxos: `src/paxos_gen.rs` = the text of
-/// /repo/hydro_test/src/cluster/paxos.rs + `wiring/paxos_wiring.rs.in` (timer-free wiring that needs
-/// the module's private functions). Regenerated whenever either changes, so a change to the
-/// repo's Paxos is a change to what the checker runs.
-fn gen_paxos() {
-    let dir = std::env::var("CARGO_MANIFEST_DIR").unwrap();
-    let repo = Path::new(&dir).join("../../../repo/hydro_test/src/cluster/paxos.rs");
-    let wiring = Path::new(&dir).join("wiring/paxos_wiring.rs.in");
-    println!("cargo::rerun-if-changed={}", repo.display());
-    println!("cargo::rerun-if-changed={}", wiring.display());
-    let src = std::fs::read_to_string(&repo).expect("cannot read the repo's paxos.rs");
-    let marker = "#[cfg(test)]\nmod tests {";
-    let cut = src.find(marker).expect("paxos.rs: test module marker not found");
-    let body = src[..cut].replace(
-        "use super::paxos_with_client::PaxosLike;",
-        "use hydro_test::cluster::paxos_with_client::PaxosLike;",
-    );
-    assert!(body.contains("hydro_test::cluster::paxos_with_client::PaxosLike"), "paxos.rs: PaxosLike import not found");
-    let out = format!(
-        "// @generated by build.rs from /repo/hydro_test/src/cluster/paxos.rs — do not edit.\n#![allow(dead_code, unused_imports, clippy::all)]\n{}{}",
-        body,
-        std::fs::read_to_string(&wiring).expect("cannot read wiring")
-    );
-    let dest = Path::new(&dir).join("src/paxos_gen.rs");
-    if std::fs::read_to_string(&dest).ok().as_deref() != Some(out.as_str()) {
-        std::fs::write(&dest, out).expect("cannot write src/paxos_gen.rs");
-    }
-}
-
 fn main() {
-    gen_paxos();
     stageleft_tool::gen_final!();
 }
